@@ -296,6 +296,8 @@ def show(t: Any) -> str:
         return f"{k}({', '.join(show(x) for x in t[1])})"
     if k == "div":
         return f"({show(t[1])}) / ({show(t[2])})"
+    if k == "concat":
+        return " + ".join(show(x) for x in t[1])
     if k == "ext":
         return f"{t[1]}[{show(t[3])} for <node> in {show(t[2])}]"
     if k == "elem":
@@ -740,6 +742,9 @@ class Evaluator:
         if isinstance(op, ast.Add):
             if a[0] == "list" and b[0] == "list":
                 return ("list", a[1] + b[1])
+            if _listy(a) or _listy(b):
+                # list concatenation keeps its order (numeric addition is kept as a commutative sum)
+                return ("concat", (a[1] if a[0] == "concat" else (a,)) + (b[1] if b[0] == "concat" else (b,)))
             return t_add(a, b)
         if isinstance(op, ast.Sub):
             return t_add(a, b, -1)
@@ -940,6 +945,9 @@ class Evaluator:
     # -- attribute access ---------------------------------------------------------------
     def attr(self, base: Term, name: str, fr: Frame, node: Optional[ast.AST] = None) -> Term:
         if base[0] == "cls":
+            rebound = fr.env.get(f"@{base[1]}.{name}") if fr is not None and fr.env else None
+            if rebound is not None:
+                return rebound
             c = self.model.maybe_cls(base[1])
             if c is not None:
                 if self.is_enum(c) and name in c.class_attrs:
@@ -1163,6 +1171,12 @@ class Evaluator:
             return ("call", ("cls", c.name), tuple(args), tuple(kwargs))
         bound = list(zip(names, args)) + [(k, v) for k, v in kwargs]
         return ("new", c.name, tuple(sorted(bound)))
+
+
+def _listy(t: Term) -> bool:
+    while t[0] == "var" and len(t) == 4:
+        t = t[3]
+    return t[0] in ("list", "concat") or (t[0] == "comp" and t[1] == "list") or (t[0] == "call" and t[1] == "list")
 
 
 def is_private_helper(f: FunctionInfo) -> bool:
